@@ -499,17 +499,18 @@ def gen_pycase():
 
 # ---- inventory of module-level state of the decompiler and of the writes that reach it (Gen/ModuleState.lean)
 
-def gen_module_state_inventory():
-    """over every module of drxtract/lingosrc: (a) module-level names bound to a mutable container or an object
+def gen_module_state_inventory(subdirs=("lingosrc",)):
+    """over every module of drxtract/<subdirs> (default: drxtract/lingosrc): (a) module-level names bound to a mutable container or an object
     (dict / list / set literals, comprehensions, calls) and class-level ones; (b) every place inside a function or method that can
     change state living longer than one decompilation: a `global` / `nonlocal` statement, an assignment / augmented assignment /
     delete / mutating call whose base name is a module-level name (of the same module or imported), a class attribute written
     through the class name or `cls`, `setattr` / `__dict__` / `globals()` uses. -> (holders, writes)"""
     import ast
-    base = REPO / "drxtract" / "lingosrc"
+    base = REPO / "drxtract" / "lingosrc" if tuple(subdirs) == ("lingosrc",) else REPO / "drxtract"
     holders, writes = [], []
     MUT = MUTATORS | {"update", "setdefault", "add", "discard", "popitem", "appendleft"}
-    for f in sorted(base.rglob("*.py")):
+    files = sorted(base.rglob("*.py")) if tuple(subdirs) == ("lingosrc",) else sorted(f for d in subdirs for f in (base / d).rglob("*.py"))
+    for f in files:
         mod = f.relative_to(base).with_suffix("").as_posix().replace("/", ".")
         tree = ast.parse(f.read_text())
         modnames, classes = set(), set()
@@ -574,6 +575,21 @@ def gen_module_state_inventory():
             for d in fn.decorator_list:
                 if "cache" in ast.unparse(d):
                     writes.append((mod, owner, fn.name, "cache", ast.unparse(d)[:80]))
+            # a parameter default is evaluated once, when the function is defined: a default that is not an immutable literal
+            # (a call, a list / dict / set display, a comprehension) is one object shared by every call that omits the argument
+            def immutable(v):
+                if isinstance(v, ast.Constant):
+                    return True
+                if isinstance(v, ast.UnaryOp) and isinstance(v.operand, ast.Constant):
+                    return True
+                if isinstance(v, ast.Tuple):
+                    return all(immutable(e) for e in v.elts)
+                if isinstance(v, (ast.Name, ast.Attribute)):
+                    return True          # a named constant / enum member: the object it names is inventoried as a holder where it is defined
+                return False
+            for dflt in list(fn.args.defaults) + [d for d in fn.args.kw_defaults if d is not None]:
+                if not immutable(dflt):
+                    writes.append((mod, owner, fn.name, "default", ast.unparse(dflt)[:80]))
         for n in tree.body:
             if isinstance(n, ast.FunctionDef):
                 scan(n, "-")
@@ -584,19 +600,20 @@ def gen_module_state_inventory():
     return sorted(set(holders)), sorted(set(writes))
 
 
-def gen_module_state():
-    holders, writes = gen_module_state_inventory()
-    out = ["-- GENERATED by harness/lscr_common.py (Python `ast` walk over every module of drxtract/lingosrc); do not edit",
+def gen_module_state(subdirs=("lingosrc",), namespace="Drx.Gen.ModuleState"):
+    holders, writes = gen_module_state_inventory(subdirs)
+    out = ["-- GENERATED by harness/lscr_common.py (Python `ast` walk over every module of drxtract/{" + ",".join(subdirs) + "}); do not edit",
            "-- holders: module-level / class-level names bound to a container or object (module, class or '-', name, form)",
            "-- writes: every statement inside a function or method that can change such state (global statements, assignments and",
-           "-- mutating calls whose base is a module-level name, class or `cls`, setattr/globals/__dict__, caches):",
+           "-- mutating calls whose base is a module-level name, class or `cls`, setattr/globals/__dict__, caches, parameter defaults",
+           "-- that are not immutable literals):",
            "-- (module, class or '-', function, kind, target)",
-           "namespace Drx.Gen.ModuleState", "",
+           "namespace " + namespace, "",
            "def holders : List (String × String × String × String) := ["]
     out.append(",\n".join(f"  ({_ls(a)}, {_ls(b)}, {_ls(c)}, {_ls(d)})" for a, b, c, d in holders))
     out += ["]", "", "def writes : List (String × String × String × String × String) := ["]
     out.append(",\n".join(f"  ({_ls(a)}, {_ls(b)}, {_ls(c)}, {_ls(d)}, {_ls(e)})" for a, b, c, d, e in writes))
-    out += ["]", "", "end Drx.Gen.ModuleState"]
+    out += ["]", "", "end " + namespace]
     return "\n".join(out) + "\n"
 
 
